@@ -638,7 +638,7 @@ def dynamic_only_selected(tier, seed):
         failed.append(_fail("dynamic/control", "bounded-dynamic", "control", {"rules reporting with everything enabled": fires_all,
                                                                                "crawl spy saw": len(set(crawled))}, False))
     return {"name": "C21-dynamic-only-selected-rules-run-and-report",
-            "bound": f"{n_runs} lints of {len(SQLS)} fixed SQL texts under random selections (0-3 selectors for rules, 0-2 for exclude_rules, pool of {len(sels)}); tier {tier}",
+            "bound": f"{n_runs} lints of {len(SQLS) + 1} fixed SQL texts under random selections (0-3 selectors for rules, 0-2 for exclude_rules, pool of {len(sels)}); tier {tier}",
             "rule": "each run = the real Linter.lint_string (lint / fix=True) or sqlfluff.lint (api) under a random selection with BaseRule.crawl "
                     "wrapped by a recording spy; violation = a reported code outside Oracle.selected + {PRS, TMP, LXR}, or the set of rules whose crawl "
                     f"was entered differs from Oracle.selected; control: with all rules enabled {len(fires_all)} distinct rules report on the messy "
